@@ -269,7 +269,7 @@ static void gen_c15(Plan& p, Rng& r) {
             if (o.name == "clock_time_get" && o.n["id"] < 4 && r.below(10) == 0) { o.fault = "clock_fail"; o.fault_nth = 1; o.fault_param = r.below(2) ? EINVAL : EPERM; }
             p.ops.push_back(o); }
         else if (k < 75) { Op o = mkop("random_get", r); static const int64_t ln[] = {0, 1, 7, 255, 256, 257, 1000, 4096, 65536, 1 << 20}; o.n["len"] = ln[r.below(r.below(3) == 0 ? 10 : 8)]; if (r.below(6) == 0) { o.fault = "getentropy_enosys"; o.fault_nth = 1; } p.ops.push_back(o); }
-        else if (k < 95) { Op o = mkop("spawn_round", r); o.n["tasks"] = 1 + r.below(4); o.n["per"] = 1 + r.below(3); o.n["argbase"] = argbase; argbase += 12; p.ops.push_back(o); }
+        else if (k < 95) { Op o = mkop("spawn_round", r); o.n["tasks"] = 1 + r.below(4); o.n["per"] = 1 + r.below(3); o.n["argbase"] = argbase; argbase += 12; if (r.below(2)) o.n["mix"] = 1; p.ops.push_back(o); }
         else { Op o = mkop("proc_exit", r); static const int64_t cs[] = {0, 1, 2, 42, 255}; o.n["code"] = cs[r.below(5)]; p.ops.push_back(o); }
     }
 }
